@@ -43,14 +43,25 @@ func c10Doc(r *rng, depth int, numerals bool) *Doc {
 		return c10Leaf(r, numerals)
 	case r.Intn(3) == 0:
 		n := r.Intn(4)
-		kind := r.Intn(3)
+		kind := r.Intn(4)
 		var proto *Doc
-		if kind == 2 {
+		if kind >= 2 {
 			proto = c10Obj(r, depth-1, numerals)
 		}
 		xs := []*Doc{}
 		for i := 0; i < n; i++ {
 			switch kind {
+			case 3: // a list of lists of objects (rows of cells)
+				row := []*Doc{}
+				for j := 0; j < 1+r.Intn(2); j++ {
+					o := &Doc{K: 'o'}
+					for _, k := range proto.Keys {
+						o.Keys = append(o.Keys, k)
+						o.Vals = append(o.Vals, c10Leaf(r, numerals))
+					}
+					row = append(row, o)
+				}
+				xs = append(xs, &Doc{K: 'a', A: row})
 			case 0:
 				xs = append(xs, dNum(r.Pick([]string{"0", "1", "2", "3.5", "-4"})))
 			case 1:
@@ -134,7 +145,7 @@ type c10Rendering struct {
 
 func genC10(c *Ctx) {
 	r := c.R
-	c.Rule = "random JSON-like documents with rectangular arrays of objects (depth ≤3), each with 5 data-directed queries; every query is evaluated on the json rendering (map[string]any/[]any/float64) and on 12 re-renderings of the same document (integer kinds, decimal.Decimal, named types, pointers to numbers, Go arrays, typed slices, StructOf structs, map[NString]any, map[any]any, objects behind pointers, mixed number carriers, and the document's JSON/YAML/TOML text parsed inside the query); oracle: equal logical result (keys case-folded, numbers by value). AsJSON/Sprintf serialise the carrier by design and are excluded; RemoveKeysBy* is excluded on the struct rendering (a case-sensitive pattern meets the capitalised field name: an ambiguity of the re-representation itself). distinct = distinct (query skeleton, data shape, outcome class); non-trivial = outcome is not the most common class"
+	c.Rule = "random JSON-like documents with rectangular arrays of objects (depth ≤3), each with 5 data-directed queries; every query is evaluated on the json rendering (map[string]any/[]any/float64) and on 12 re-renderings of the same document (integer kinds, decimal.Decimal, named types, pointers to numbers, Go arrays, typed slices, StructOf structs, map[NString]any, map[any]any, objects behind pointers, mixed number carriers, and the document's JSON/YAML/TOML text parsed inside the query); oracle: equal logical result (keys case-folded, numbers by value). Sprintf serialises the carrier by design and is excluded; AsJSON (appended to the first query of every document: a serialisation of whatever sub-document the query reached, incl. lists of lists of objects) is compared between the json maps and the JSON/YAML/TOML text carriers only; RemoveKeysBy* is excluded on the struct rendering (a case-sensitive pattern meets the capitalised field name: an ambiguity of the re-representation itself). distinct = distinct (query skeleton, data shape, outcome class); non-trivial = outcome is not the most common class"
 	rends := []c10Rendering{
 		{"int-kinds", Style{Obj: "map", Num: "int", R: r}},
 		{"decimal", Style{Obj: "map", Num: "dec"}},
@@ -147,6 +158,7 @@ func genC10(c *Ctx) {
 		{"struct-int", Style{Obj: "struct", Num: "int", Typed: true, R: r}},
 		{"named-key-map", Style{Obj: "nmap", Num: "f64"}},
 		{"iface-key-map", Style{Obj: "imap", Num: "f64"}},
+		{"iface-named-key-map", Style{Obj: "inmap", Num: "f64"}},
 		{"ptr-objects", Style{Obj: "map", Num: "f64", PtrObj: true}},
 		{"mixed", Style{Obj: "map", Num: "mixed", R: r}},
 	}
@@ -172,9 +184,20 @@ func genC10(c *Ctx) {
 		}
 		for j := 0; j < 5; j++ {
 			q := genDirected("$", base, 2)
-			if strings.Contains(q, "AsJSON") || strings.Contains(q, "Sprintf") || strings.Contains(q, "Parse") {
+			if strings.Contains(q, "Sprintf") || strings.Contains(q, "Parse") {
 				continue
 			}
+			if strings.Contains(q, "AsJSON") && j > 0 {
+				continue
+			}
+			if j == 0 && !strings.Contains(q, "AsJSON") {
+				// the first query of every document ends in a serialisation of whatever it reached: compared on the text carriers only
+				// (AsJSON serialises the Go carrier by design, so the in-memory re-renderings are not comparable)
+				if strings.HasSuffix(q, ")") || !strings.Contains(q, "(") {
+					q += ".AsJSON()"
+				}
+			}
+			serialises := strings.Contains(q, "AsJSON")
 			cls := "json"
 			if numerals {
 				cls = "json/numeral-strings"
@@ -200,6 +223,9 @@ func genC10(c *Ctx) {
 				}
 			}
 			for _, rd := range rends {
+				if serialises {
+					break
+				}
 				if strings.HasPrefix(rd.name, "struct") && strings.Contains(q, "RemoveKeysBy") {
 					continue
 				}
